@@ -11,6 +11,7 @@ func init() {
 			"(C19-a) each of the seven conflict messages has a creation site on the list path whose error leaves its function (directly, through a local, or through a variable captured by the sort callback and returned by the enclosing function; inside the callback the captured error is only ever assigned non-nil errors), and every call of a carrier up to the API entry propagates the error (returned, or bound to a variable that is returned or tested before being overwritten, on every path); recording as fatal is rule C13-c-rec; " +
 			"(C19-b) each uniqueness test dominates the store it protects, on the same key; " +
 			"(C19-c) the bulk loader visits every object, the same-owner label check runs for every pod and compares labels by presence in both directions, the single-policy priority case is validated outside the comparison callback. " +
+			"(C19-all) in the bulk loader every clause of the kind switch that inserts at all inserts its object on every path: the conflict checks see only what was inserted. " +
 			"NOT decided: that a comparison sort evaluates less() on at least one equal pair and at least once per element for n >= 2 (a fact about an execution of sort.Slice; recorded as an assumption)."
 		rules.ConflictDetectors(p, r, "C19-a")
 		rules.CheckBeforeWrite(p, r, "C19-b")
